@@ -63,8 +63,8 @@ Section TruncProofs.
   Lemma present_unwrite plan k o : k < length plan -> present (unwrite (nth_error plan k) o) plan = false.
   Proof. intros Hk. destruct (nth_error plan k) as [[f x]|] eqn:En; [|apply nth_error_None in En; lia].
     destruct (present _ plan) eqn:Ep; [|reflexivity]. exfalso.
-    apply (present_true proj cfg schedT fnameT content fpT _ _ Ep f x (nth_error_In _ _ En)).
-    cbn [C08Run.unwrite]. apply (upd_same proj cfg schedT fnameT content fpT fn_eqb fn_eqb_spec). Qed.
+    apply (present_true fnameT content _ _ Ep f x (nth_error_In _ _ En)).
+    cbn [C08Run.unwrite]. apply (upd_same fnameT content fn_eqb fn_eqb_spec). Qed.
 
   Lemma hit_needs_record w (t : state) : cache_hit w t = true ->
     exists h, s_cache t = Some h /\ h = gfp w (s_src t) (s_cfg t) /\ present (s_out t) (gfiles w (s_src t) (s_cfg t)) = true.
@@ -128,7 +128,7 @@ Section TruncProofs.
       split; [reflexivity|]. split; [reflexivity|]. split. { intros Hlt. lia. }
       split. { intros _. split; [reflexivity|]. split; [reflexivity|].
                intros f x Hin. cbn [s_src s_cfg s_out] in *.
-               apply (write_all_in proj cfg schedT fnameT content fpT fn_eqb fn_eqb_spec); [apply files_fun|exact Hin]. }
+               apply (write_all_in fnameT content fn_eqb fn_eqb_spec); [apply files_fun|exact Hin]. }
       apply Hfin; [reflexivity|reflexivity|right; reflexivity]. Qed.
 
   (* ---- recovery after any failed run - forced or not, whatever the record, open or post-open fault, every prefix
